@@ -23,7 +23,7 @@ pub fn dump_set<K: KeyT>(m: &Set<K>) -> String {
             }
             None => s.push_str(" a=-"),
         }
-        s.push_str(" sing=0 salt=0 BIG");
+        let _ = write!(s, " sing=0 salt=0 cap={} BIG", m.capacity());
         return s;
     }
     let _ = write!(s, "m={} i={} g={} c={} s=", d.bucket_mask, d.items, d.growth_left, hex(&d.ctrl));
@@ -48,7 +48,7 @@ pub fn dump_set<K: KeyT>(m: &Set<K>) -> String {
         }
         None => s.push_str(" a=-"),
     }
-    let _ = write!(s, " sing={} salt={}", d.singleton as u8, m.hasher().salt);
+    let _ = write!(s, " sing={} salt={} cap={}", d.singleton as u8, m.hasher().salt, m.capacity());
     s
 }
 
